@@ -216,7 +216,10 @@ def run_real(lentil, case, plane_hook=None):
                 if 'scratch' in st and st['scratch'] is not None:
                     kw['scratch'] = st['scratch']      # numpy array injected by the driver (not JSON)
                 w = lentil.propagate_fft(w, pixelscale=du, shape=sh, oversample=st['os'], **kw)
-            obs.append(observe_real(w))
+            o = observe_real(w)
+            if st['op'] in ('dft', 'fft'):
+                o['_wavefront'] = w          # kept so that a result can be looked at AGAIN after later calls (aliasing of buffers)
+            obs.append(o)
         except Exception as ex:
             obs.append({'err': type(ex).__name__, 'msg': repr(ex)[:300]})
             dead = True
@@ -334,3 +337,21 @@ def compare(case, spec_obs, real_obs, check_meta=True):
         if np.any(inten < 0):
             out.append((k, 'negative-intensity', {'min': float(inten.min())}))
     return out
+
+
+def binding_selftest(ctx, lentil, case, spec):
+    """spec -> code binding: perturb ONE coefficient of the expected final field - the comparison must flag it; and perturb
+    nothing - it must not.  Recorded in the evidence; a failure is a machinery error."""
+    import copy
+    real = run_real(lentil, case)
+    clean = compare(case, spec['obs'], real)
+    bad = copy.deepcopy(spec)
+    last = [k for k, o in enumerate(bad['obs']) if o.get('field') not in ([], None)]
+    ok = False
+    if last:
+        f = bad['obs'][last[-1]]['field']
+        f[0][0][0] += 1
+        ok = any(kind in ('field', 'intensity', 'nonzero-outside-window') for (_, kind, _) in compare(case, bad['obs'], real))
+    ctx.extra['binding_selftest'] = {'unperturbed_case_accepted': clean == [], 'perturbed_expected_coefficient_flagged': ok}
+    if clean == [] and not ok:
+        ctx.machinery_errors.append('binding self-test: a perturbed expected field was not flagged')
